@@ -82,7 +82,9 @@ def impl(case):
             ids = [c + base for c in ids]
             if case.get('idskind') == 'array':
                 ids = np.array(ids, dtype=np.int64)
-        keep = (times.copy(), sc.copy(), None if ids is None else list(ids))
+        if case.get('timeskind') == 'list':      # spike times given as a plain list
+            times = times.tolist()
+        keep = (list(times) if isinstance(times, list) else times.copy(), sc.copy(), None if ids is None else list(ids))
         out = correlograms(times, sc, cluster_ids=ids, sample_rate=r, bin_size=bin_size,
                            window_size=window, symmetrize=case['sym'])
         res = dict(arr=out.tolist(), shape=list(out.shape))
@@ -375,6 +377,8 @@ def gen(tier, rng):
             rng.shuffle(pool)
             c['ids'] = list(pool)
             c['idskind'] = rng.pick(['list', 'array'])
+        if rng.random() < .2:
+            c['timeskind'] = 'list'
         if c['dtype'] == 'int64' and rng.random() < .3:
             c['idbase'] = rng.pick([1000, 1000000, 5000000])    # large cluster ids
         if exact(c):
